@@ -1298,3 +1298,35 @@ def decide_failed(ctx, prop: str, c, err: str, rng):
     else:
         ctx.violation(c["vkey"], f"could not prove that rendering {c['s']!r} of {c['key']} preserves the value", rep,
             found_input=False)
+
+
+def numeric_only_check(ctx, c, rng):
+    """An item without a Coq obligation (original undefined over the reals, e.g. a negative number to a symbolic
+    power) is still compared numerically: both readings are evaluated with principal-branch complex arithmetic at
+    seeded valuations.  A difference is a violation with a concrete valuation; agreement proves nothing and the item
+    stays listed as structure_only."""
+    if c.get("parsed") is None or c.get("sides") is None:
+        return "not comparable"
+    a = c["parsed"]
+    if len(c["sides"]) == 2:
+        if not (a[0] == "bin" and a[1] == "OEq"):
+            return "not comparable"
+        psides = (a[2], a[3])
+    else:
+        psides = (a,)
+    assume = [(kd, ("var", n)) for n, kd in (c.get("assume") or {}).items() if kd]
+    for o, p in zip(c["sides"], psides):
+        pr = aexpr_rtree(p)
+        names = set(var_names(o)) | set(var_names(pr))
+        hs = [h for h in assume if h[1][1] in names]
+        found = find_distinguishing(rng, o, pr, hs, tries=24)
+        if found:
+            val, va, vb = found
+            ctx.violation(c["vkey"], f"rendering {c['s']!r} of {c['key']} denotes a different value than the expression "
+                f"(complex arithmetic, e.g. at {val}: original {va}, rendering {vb})",
+                {"kind": "violation", "item": c["key"], "origin": c["origin"], "rendering": c["s"],
+                 "parsed_as": aexpr_show(a), "original": str(c["expr"]), "valuation": val,
+                 "value_of_original": str(va), "value_of_rendering": str(vb), "sample_index": c.get("sample_index")},
+                found_input=True)
+            return "DIFFERENT"
+    return "agree at seeded complex valuations"
